@@ -458,7 +458,7 @@ def call(ex, fr, c, a):
     raise Unsupported('call ' + c)
 
 
-def fsqrt(ex, x):
+def fsqrt(ex, x, _const=False):
     x = conc(x)
     cur = ex.stack[-1] if ex.stack else '?'
     if not is_sym(x):
@@ -469,14 +469,20 @@ def fsqrt(ex, x):
         n, d = x.numerator, x.denominator
         rn, rd = math.isqrt(n), math.isqrt(d)
         if rn * rn == n and rd * rd == d: return Fraction(rn, rd)
-        x = R(x)
+        x = R(x); _const = True
     ex.sqrts.append((ex.pc_term(), x, cur))
     # sqrt as an uninterpreted function with its defining axiom instantiated at this argument:
     # equal arguments give equal roots by congruence
     try:
         from . import rcore
         cx = rcore.Canon()
-        x = cx.term(cx.poly(x))
+        if not _const: x = cx.term(cx.poly(x))
+        if z3.is_rational_value(x) and not _const:                    # the argument is a constant after normalisation (e.g. the variance of a flat window)
+            return fsqrt(ex, Fraction(x.numerator_as_long(), x.denominator_as_long()), True)
+    except Unsupported:
+        raise
+    except PathDead:
+        raise
     except Exception:
         pass
     sv = FSQRT(x)
